@@ -14,6 +14,7 @@ for n in names:
     if os.path.exists(os.path.join(V, "seeded", n, "patch.diff")):
         q.put(n)
 rows, lock = [], threading.Lock()
+not_applied = []
 
 
 def worker(k):
@@ -34,6 +35,7 @@ def worker(k):
                     subprocess.run(["git", "-C", wt, "reset", "-q", "--hard", "HEAD"], check=True)
                     with lock:
                         print("%-12s %s does not apply to the current /repo HEAD: %s" % (n, pid, ap.stderr.strip()[:160]), flush=True)
+                        not_applied.append(n)
                     continue
                 subprocess.run(["git", "-C", wt, "reset", "-q"], check=True)
             env = dict(os.environ, VERIF_EVIDENCE_DIR=os.path.join(V, ".build", "seeded-evidence"), VERIF_REPO=wt)
@@ -56,4 +58,4 @@ ts = [threading.Thread(target=worker, args=(k,)) for k in range(J)]
 [t.start() for t in ts]
 [t.join() for t in ts]
 missed = [r for r in rows if r[2] != 1 or r[3] == 0]
-print("checked %d seeded changes, %d not detected: %s" % (len(rows), len(missed), [r[0] for r in missed]))
+print("checked %d seeded changes, %d not detected: %s; %d did not apply: %s" % (len(rows), len(missed), [r[0] for r in missed], len(not_applied), not_applied))
